@@ -938,20 +938,36 @@ pub fn c06() -> RenderProp {
 pub fn c02() -> RenderProp {
     RenderProp {
         id: "C02",
-        cfg: |_| GenCfg {
-            locales: (1, 3),
-            p_namespaces: 50,
-            keys: (4, 6),
-            sub_depth: 2,
-            w_kinds: [2, 6, 2, 3, 3, 5, 2],
-            p_null: 5,
-            p_absent: 5,
-            p_kind_varies: 10,
-            p_inherits: 20,
-            max_pieces: 4,
-            max_comp_depth: 2,
-            plural_locales_only: true,
-            ..GenCfg::default()
+        cfg: |t| {
+            let base = GenCfg {
+                locales: (1, 3),
+                p_namespaces: 50,
+                keys: (4, 6),
+                sub_depth: 2,
+                w_kinds: [2, 6, 2, 3, 3, 5, 2],
+                p_null: 5,
+                p_absent: 5,
+                p_kind_varies: 10,
+                p_inherits: 20,
+                max_pieces: 4,
+                max_comp_depth: 2,
+                plural_locales_only: true,
+                ..GenCfg::default()
+            };
+            if t.chance(1, 6) {
+                // very long values: the view flavours nest more than 26 pieces into chunked tuples,
+                // the string flavours do not
+                GenCfg {
+                    keys: (1, 2),
+                    locales: (1, 2),
+                    min_pieces: 27,
+                    max_pieces: 60,
+                    w_kinds: [1, 12, 0, 0, 0, 1, 1],
+                    ..base
+                }
+            } else {
+                base
+            }
         },
         opts: PlanOpts {
             assignments: 1,
@@ -959,9 +975,15 @@ pub fn c02() -> RenderProp {
             ..PlanOpts::default()
         },
         packages: (24, 320),
-        tape_len: 2000,
+        tape_len: 5000,
         nontrivial: |k| (k.pieces_max >= 2 && !k.sig.is_empty()) || k.has_range || k.has_plural || k.path.len() + k.ns.iter().count() >= 2,
-        classes: |k| vec![format!("path-depth:{}", k.path.len() + k.ns.iter().count())],
+        classes: |k| {
+            let mut c = vec![format!("path-depth:{}", k.path.len() + k.ns.iter().count())];
+            if k.per_locale.iter().any(|(_, r)| r.len() > 26) {
+                c.push("more-than-26-top-level-pieces".to_string());
+            }
+            c
+        },
         rule: "generated packages (interpolations, ranges, plurals, literals of every JSON type, keys under 1-3 levels of namespaces / \
                subkeys); one context per package created natively (ssr, cookie and header getters returning None) and switched with \
                set_locale; for every (locale, key, argument assignment, up to 3 counts) the observations t!/tu!/td! (to_html), \
